@@ -13,5 +13,7 @@ CONSTANTS
   FailBudget = 2
   MaxNow = 200
   EnableClose = TRUE
+  Ctrls = {0, 1}
+  Urgent = FALSE
 INVARIANTS Bounded NoDupDelivery ObsQuiet
 CHECK_DEADLOCK FALSE
